@@ -147,7 +147,7 @@ def r3(ctx):
     cl = lambda x: mentions_call(x, r"OutstationSession::classify$")
     allowed = {
         "OutstationSession::process_broadcast": ("Some", []),
-        "OutstationSession::get_response_iin": ("None", [("not confirm-mandatory", g_rel("Ne", "last_broadcast_type", lambda x: mentions(x, lambda s: s[0] == "agg" and s[2] == "Mandatory")))]),
+        "OutstationSession::get_response_iin": ("None", [("not confirm-mandatory", g_not_variant("last_broadcast_type", "Mandatory"))]),
         "OutstationSession::sol_confirm_wait": ("None", [("solicited confirm matched", g_is(lambda x: mentions_call(x, r"wait_for_sol_confirm$"), "Yes"))]),
         "OutstationSession::wait_for_unsolicited_confirm": ("None", None),
     }
